@@ -1,6 +1,6 @@
 #!/bin/bash
 # usage: with_patch.sh <patch.diff> <command…> — applies the patch to /repo, runs the command from /verif, restores /repo (including files the patch creates)
-P=$1; shift
+P=$(readlink -f "$1"); shift
 cd /verif
 git -C /repo apply "$P" 2>/dev/null || { echo "PATCH DOES NOT APPLY: $P"; exit 2; }
 "$@"; rc=$?
